@@ -195,6 +195,23 @@ var armFaultTemplates = map[string]struct {
 
 var armFaultNames = []string{"table-read", "table-read", "table-read", "table-open", "table-write", "table-sync", "table-create", "manifest-write", "dirsync", "wal-write", "wal-sync", "remove"}
 
+// execArmStall installs a one-shot stall: the next sync (or write) of the
+// named file class sleeps N simulated milliseconds. Any profile may use it.
+func (h *dbHarness) execArmStall(op *DBOp) {
+	t, ok := armFaultTemplates[op.Mode]
+	if !ok {
+		simrt.Fail("tooling:badop", "unknown armstall template "+op.Mode)
+	}
+	f := &simfs.Fault{Name: "armed-stall-" + op.Mode, Skip: 0, Count: 1, Kinds: simfs.KindMask(t.kinds...), DelayNs: int64(op.N) * 1e6}
+	if len(t.classes) > 0 {
+		f.Classes = simfs.ClassMask(t.classes...)
+	}
+	h.dynFaults = append(h.dynFaults, f)
+	if !h.faultProfile() || h.faultsArmed {
+		h.disk.SetFaults(h.allFaults())
+	}
+}
+
 func (h *dbHarness) execArmFault(op *DBOp) {
 	if !h.faultProfile() || h.faultsStopped {
 		return
